@@ -107,7 +107,7 @@ def fixture_funcs() -> List[Tuple[str, Any]]:
         ("mfunc", S.mfunc), ("Base.meth", S.Base.meth), ("Base.cmeth", S.Base.cmeth.__func__), ("Base.smeth", S.Base.smeth),
         ("Base.prop", S.Base.prop.fget), ("wrapped", S.wrapped.__wrapped__), ("wrapped2", S.wrapped2.__wrapped__.__wrapped__),
         ("Outer.Inner.imeth", S.Outer.Inner.imeth), ("Outer.Inner.ismeth", S.Outer.Inner.ismeth), ("Outer.Inner.Deep.dmeth", S.Outer.Inner.Deep.dmeth),
-        ("genfunc", S.genfunc), ("lam", S.lam), ("Deco.dmeth", S.Deco.dmeth.__wrapped__), ("Deco.dcmeth", S.Deco.dcmeth.__func__.__wrapped__),
+        ("genfunc", S.genfunc), ("lam", S.lam), ("cached_func", S.cached_func.__wrapped__), ("class_decorated", S.class_decorated.__wrapped__), ("Deco.dmeth", S.Deco.dmeth.__wrapped__), ("Deco.dcmeth", S.Deco.dcmeth.__func__.__wrapped__),
     ]
 
 
@@ -157,6 +157,38 @@ def check_trace(fname: str, func, args: Dict[str, Any], ret, yld, mods) -> Optio
     if (ret is None) != (row.return_type is None) or (yld is None) != (row.yield_type is None):
         return ("trace", "row-null", f"{fname}: row return={row.return_type!r} yield={row.yield_type!r}")
     return None
+
+
+def reload_stage(res: Result, CallTrace, CallTraceRow) -> None:
+    """decode -> importlib.reload(module) -> decode the SAME row again: each decode names the function that exists then."""
+    import importlib
+
+    import vfx.reloadme as R
+
+    for qual in ("f", "C.m"):
+        def cur():
+            obj = R
+            for part in qual.split("."):
+                obj = getattr(obj, part)
+            return obj
+
+        row = CallTraceRow.from_trace(CallTrace(cur(), {"x": int}, int, None))
+        res.states += 1
+        res.transitions += 3
+        res.evaluations += 1
+        case = {"what": "reload", "qual": qual, "tier": "quick"}
+        try:
+            first = row.to_trace().func
+            ok1 = first is cur()
+            importlib.reload(R)
+            second = row.to_trace().func
+            ok2 = second is cur()
+        except Exception as e:  # noqa: BLE001
+            res.violate(Violation(ID, "exception", "reload", case, f"decode around a reload raised {e!r}"))
+            continue
+        if not ok1 or not ok2:
+            res.violate(Violation(ID, "trace", "stale-function-after-reload", case, f"vfx.reloadme.{qual}: decoded function is the current one before reload: {ok1}, after reload: {ok2}"))
+    res.oblige("trace:reload-between-decodes", True)
 
 
 def all_types(tier: str) -> List[Any]:
@@ -238,6 +270,8 @@ def run(ctx: Ctx) -> Result:
                 res.violate(Violation(ID, v[0], v[1], {"what": "trace", "func": fname, "ci": ci, "tier": ctx.tier}, v[2]))
             else:
                 res.oblige(f"trace:{fname}", True)
+        if si == 0:
+            reload_stage(res, CallTrace, CallTraceRow)
         res.extra["types"] = len(types)
         res.extra["traces"] = len(combos)
         return res
@@ -247,6 +281,7 @@ def run(ctx: Ctx) -> Result:
         res.obligations.setdefault(o, False)
     for fname, _ in fixture_funcs():
         res.obligations.setdefault(f"trace:{fname}", False)
+    res.obligations.setdefault("trace:reload-between-decodes", False)
     res.bounds.update({"tier": ctx.tier})
     return res
 
@@ -257,6 +292,10 @@ def replay(case: Dict[str, Any], ctx: Ctx) -> List[Violation]:
 
     types = all_types(case["tier"])
     out: List[Violation] = []
+    if case["what"] == "reload":
+        r = Result()
+        reload_stage(r, CallTrace, CallTraceRow)
+        return r.violations
     if case["what"] == "type":
         v = check_type(types[case["index"]], (type_to_json, type_from_json))
     else:
